@@ -34,6 +34,18 @@ Proof.
 Qed.
 Print Assumptions C06_distinct_refuted_synthesised.
 
+(* names, given or synthesised from verb and path, never carry a dot (`users.list`, `/v1.0/items`, `/users/{user.id}`):
+   the case conversions that derive the method, struct and module names do not treat a dot as a word boundary *)
+Theorem C06_names_without_dots : forall opid m p n, make_name opid m p = Ok n -> ~ In "."%char n.
+Proof. exact make_name_no_dot. Qed.
+Print Assumptions C06_names_without_dots.
+
+Theorem C06_synthesised_nonvacuous :
+  make_name None (lit "get") (lit "/v1.0/users/{user.id}") = Ok (lit "get_v1_0_users_by_user_id") /\
+  op_file_name (pascal (lit "get_v1_0_users_by_user_id")) = lit "get_v_10_users_by_user_id".
+Proof. vm_compute. split; reflexivity. Qed.
+Print Assumptions C06_synthesised_nonvacuous.
+
 Theorem C06_nonvacuous :
   norm (lit "list-Pets") <> norm (lit "listPet") /\ norm (lit "get.pet") = norm (lit "GetPet") /\
   op_name_of_id (lit "users.list") = lit "UsersList" /\ op_file_name (lit "UsersList") = lit "users_list".
